@@ -254,3 +254,23 @@ Section Day.
   Definition steps_of (wdt : T) : Z * T :=
     if wdt <? one then (truncZ (roundv (one / wdt)), wdt) else (1%Z, one).
 End Day.
+
+(* ---------------- setFieldCapacityWithGW (init.go:90-98) ---------------- *)
+Section GW.
+  Context {T : Type} {NT : Num T}.
+  Local Open Scope num_scope.
+  (* l runs over 1-based layer numbers int(GRW+1) .. N; returns the new W *)
+  Fixpoint set_fc_gw_from (l : nat) (first : nat) (fr : T) (w porges : list T) : list T :=
+    match w, porges with
+    | wv :: wr, pv :: pr =>
+        (if Nat.ltb l first then wv
+         else if Nat.eqb l first then (one - fr) * pv + wv * fr
+         else pv) :: set_fc_gw_from (S l) first fr wr pr
+    | _, _ => w
+    end.
+  Definition set_fc_gw (grw : T) (w porges : list T) : list T :=
+    let first := Z.to_nat (truncZ (grw + one)) in
+    (* Go: for l := int(GRW+1); l <= N: a start below 1 would index W[-1] (panic) *)
+    set_fc_gw_from 1 first (frac1 (grw + one)) w porges.
+End GW.
+
